@@ -324,7 +324,12 @@ pub fn run(spec: &RunSpec) -> RunLog {
                                     Err(e) => break (CallOutcome::Err(format!("{e:#}")), None, false),
                                     Ok(p) if still => {
                                         let counts = snap.iter().map(|(c, v)| {
-                                            (*c, (v.len(), v.iter().filter(|r| r.diverging && !r.tuning).count(), v.iter().map(|r| r.num_steps as usize).sum(), v.last().map(|r| r.clock).unwrap_or(0)))
+                                            // divergences as the trace shows them: the recorded `diverging` statistic where there is one
+                                            let div = |r: &Record| match r.stat("diverging") {
+                                                Some(nuts_rs::Value::ScalarBool(b)) => *b,
+                                                _ => r.diverging,
+                                            };
+                                            (*c, (v.len(), v.iter().filter(|r| div(r) && !r.tuning).count(), v.iter().map(|r| r.num_steps as usize).sum(), v.last().map(|r| r.clock).unwrap_or(0)))
                                         }).collect();
                                         break (CallOutcome::Quiesced(p.iter().map(lite).collect(), counts), None, false);
                                     }
